@@ -5,12 +5,17 @@
 From Coq Require Import Strings.String.
 From CG3 Require Import Lib.PyZ Lib.Val Lib.PySlice Model.View Model.Serial.
 From CG3 Require Model.IndelMap Spec.IndelMapSpec Spec.SerialSpec.
+From CG3 Require Lib.Rose Model.Tree.
 
 Inductive case :=
 | CSeq (st : style) (k : kind) (v : view) (p : list Z)
 | CView (st : style) (v : view) (p : list Z)
 | CAligned (gp cum : list Z) (plen : Z) (k : kind) (v : view) (p : list Z)
 | CImap (gp cum : list Z) (plen : Z)
+| CTree (t : Rose.tree)
+| CTable (ix : option (list Z)) (attrs : dict) (cols : list (list Z * list Z * list json))
+| CDarr (names : list (list json)) (arr : json)
+| CNC (args : list json) (kwargs : dict)
 | CDispatch (reg : list (list Z * list Z)) (types : list (list Z))
 | CRegistry
 | CExpected.
@@ -33,6 +38,28 @@ Definition sub_dict (k : list Z) (d : dict) : dict := match jget k d with Some (
 
 Definition vseq_after (s : seqobj) : val :=
   let c := s_core s in VL [vview (sv c); VS (parent c); VS (realise c); vpc (sv c)].
+
+(** a JSON value as a [val]: objects and floats are tagged *)
+Fixpoint vjson (j : json) : val :=
+  match j with
+  | JNull => VN
+  | JBool b => VB b
+  | JInt z => VZ z
+  | JStr s => VS s
+  | JArr l => VL (map vjson l)
+  | JObj o => VL [VE 0; VL (map (fun kv => VL [VS (fst kv); vjson (snd kv)]) o)]
+  | JFloat r => VL [VE 1; VS r]
+  end.
+
+Fixpoint vtree (t : Rose.tree) : val :=
+  match t with
+  | Rose.Node n l cs => VL [VS n; voptZ l; VL (map vtree cs)]
+  end.
+
+(** encode, decode through the registry, encode what came back *)
+Definition reencode (x : obj) : val :=
+  let j := to_dict x in
+  VL [ vjson j; match deserialise_object j with Ok y => vjson (to_dict y) | Err e => VE e end ].
 
 Definition decoder_name (f : decoder) : list Z :=
   match f with
@@ -114,6 +141,19 @@ Definition run_case (c : case) : val :=
            | Ok _ => VE E_Other
            | Err e => VE e
            end ]
+  | CTree t =>
+      let d := dict_of (tree_to_dict t) in
+      VL [ field_str k_newick d;
+           VL (map (fun kv => VL [VS (fst kv); match snd kv with JObj ps => match jget k_length ps with Some (JInt z) => VZ z | _ => VN end | _ => VN end])
+                   (sub_dict k_edge_attributes d));
+           match deserialise_object (JObj d) with
+           | Ok (OTree t') => vtree t'
+           | Ok _ => VE E_Other
+           | Err e => VE e
+           end ]
+  | CTable ix attrs cols => reencode (OTable (mkTab ix attrs (map (fun c => mkCol (fst (fst c)) (snd (fst c)) (snd c)) cols)))
+  | CDarr names arr => reencode (ODarr (mkDarr names arr))
+  | CNC args kwargs => reencode (ONotCompleted (mkNC args kwargs))
   | CDispatch reg types =>
       let r := map (fun kf => (fst kf, DOther (snd kf))) reg in
       VL (map (fun t => match dispatch r t with Some f => VS (decoder_name f) | None => VN end) types)
